@@ -186,6 +186,10 @@ func sharedBases(v ssa.Value, derefs int, seen map[ssa.Value]bool, out *[]memBas
 		switch x.Type().Underlying().(type) {
 		case *types.Pointer, *types.Map:
 			if sc := x.Call.StaticCallee(); sc != nil && sc.Signature.Recv() != nil && len(x.Call.Args) > 0 && ir.FnPkg(sc) != nil && ir.InScope(ir.FnPkg(sc)) {
+				// (a method that makes a new object on every call — k.newPayments(ctx) — hands out memory nobody held before)
+				if _, isPtr := x.Type().Underlying().(*types.Pointer); isPtr && len(sc.Blocks) > 0 && sc.Signature.Results().Len() == 1 && notFresh(sc, 0) == "" {
+					return
+				}
 				sharedBases(x.Call.Args[0], derefs+1, seen, out)
 			}
 		}
@@ -260,4 +264,56 @@ func (c *Ctx) eachWrittenArg(call ssa.CallInstruction, visit func(arg ssa.Value)
 			}
 		}
 	}
+}
+
+// transientHolder: objects of the holder type nt are made only while a block, transaction or query is being processed
+// (every function that allocates one is handed the sdk.Context of that processing) — a per-operation helper that wraps a keeper (`&payments{ctx: ctx, k: k}`), not a module object that
+// lives as long as the application. Writes into such an object itself are local to the operation; writes through the
+// references it holds are not.
+func (c *Ctx) transientHolder(nt *types.Named) bool {
+	if c.transient == nil {
+		c.transient = map[*types.Named]bool{}
+	}
+	if v, ok := c.transient[nt]; ok {
+		return v
+	}
+	c.transient[nt] = false
+	var makers []*ssa.Function
+	for _, f := range c.W.Funcs {
+		if c.W.IsGenerated(f) {
+			continue
+		}
+		for _, b := range f.Blocks {
+			for _, in := range b.Instrs {
+				al, ok := in.(*ssa.Alloc)
+				if !ok {
+					continue
+				}
+				if et, ok := al.Type().Underlying().(*types.Pointer); ok && types.Identical(et.Elem(), nt) {
+					makers = append(makers, f)
+				}
+			}
+		}
+	}
+	if len(makers) == 0 {
+		return false
+	}
+	// made only where a block, transaction or query is being processed: the maker (or the function a literal is written
+	// in) is handed the sdk.Context of that processing. The constructors of module objects (NewKeeper, NewMsgServerImpl,
+	// the decorator constructors) run before any context exists.
+	for _, f := range makers {
+		has := false
+		for g := f; g != nil && !has; g = g.Parent() {
+			for _, p := range g.Params {
+				if strings.HasSuffix(p.Type().String(), "cosmos-sdk/types.Context") {
+					has = true
+				}
+			}
+		}
+		if !has {
+			return false
+		}
+	}
+	c.transient[nt] = true
+	return true
 }
